@@ -44,4 +44,39 @@ theorem C06_regular_is_cycle : statement_regular_is_cycle := Cspuz.Proofs.C06.re
 theorem C06_cycle_aux : statement_cycle false := Cspuz.Proofs.C06.cycle_aux
 theorem C06_cycle_prim : statement_cycle true := Cspuz.Proofs.C06.cycle_prim
 
+/-- `active_edges_single_path` (only the native-primitive route exists; the other raises
+`RuntimeError`): satisfiable iff the active edges are empty or form one simple path of at least one
+edge, and `is_passed` is exact. Degree form first, then the sequence form. -/
+def statement_path_regular : Prop :=
+  ∀ (g : Graph) (ie : List Expr) (base : Nat) (p : Prog) (ids : List Expr) (σ : Asg),
+    g.wf = true → LoopFree g → ie.length = g.edges.length → BoolArgs base ie →
+    singlePath g ie true base = .ok (p, ids) →
+    ids = bvars base g.n ∧
+    (Realizable base p σ ↔ PathRegular g (truthAt σ ie)) ∧
+    (∀ σ', AgreeBelow base σ σ' → SatFrag base p σ' →
+      ∀ i, i < g.n → σ'.b (base + i) = visited g (truthAt σ ie) i)
+
+theorem C06_path_regular : statement_path_regular := Cspuz.Proofs.C06.path_regular
+
+def statement_regular_is_path : Prop :=
+  ∀ (g : Graph) (act : Nat → Bool), g.wf = true → LoopFree g →
+    (PathRegular g act ↔ SinglePath g act)
+
+theorem C06_regular_is_path : statement_regular_is_path := Cspuz.Proofs.C06.regular_is_path
+
+def statement_path : Prop :=
+  ∀ (g : Graph) (ie : List Expr) (base : Nat) (p : Prog) (ids : List Expr) (σ : Asg),
+    g.wf = true → LoopFree g → ie.length = g.edges.length → BoolArgs base ie →
+    singlePath g ie true base = .ok (p, ids) →
+    ids = bvars base g.n ∧
+    (Realizable base p σ ↔ SinglePath g (truthAt σ ie)) ∧
+    (∀ σ', AgreeBelow base σ σ' → SatFrag base p σ' →
+      ∀ i, i < g.n → σ'.b (base + i) = visited g (truthAt σ ie) i)
+
+theorem C06_path : statement_path := Cspuz.Proofs.C06.path_exact
+
+/-- Without the primitive the path constraint is not implemented. -/
+theorem C06_path_aux_unimplemented (g : Graph) (ie : List Expr) (base : Nat) :
+    singlePath g ie false base = .error .runtimeError := Cspuz.Proofs.C06.path_aux_unimplemented g ie base
+
 end Cspuz.C06
